@@ -7,6 +7,7 @@ import (
 	"bytes"
 	"context"
 	"fmt"
+	"hash/fnv"
 	"io/fs"
 	"os"
 	"path/filepath"
@@ -16,6 +17,7 @@ import (
 	zed "github.com/brimdata/super"
 	"github.com/brimdata/super/api"
 	"github.com/brimdata/super/compiler"
+	"github.com/brimdata/super/compiler/optimizer/demand"
 	"github.com/brimdata/super/compiler/parser"
 	"github.com/brimdata/super/lake"
 	lakeapi "github.com/brimdata/super/lake/api"
@@ -23,6 +25,7 @@ import (
 	"github.com/brimdata/super/pkg/storage"
 	"github.com/brimdata/super/runtime"
 	"github.com/brimdata/super/zbuf"
+	"github.com/brimdata/super/zio/vngio"
 	"github.com/brimdata/super/zio/zngio"
 	"github.com/segmentio/ksuid"
 
@@ -196,7 +199,101 @@ type ObjInfo struct {
 
 // Objects lists the data objects of pool@rev as the metadata reports them.
 func (l *Lake) Objects(ctx context.Context, pool, rev string) ([]ObjInfo, error) {
-	vals, err := l.QueryVals(ctx, fmt.Sprintf("from %s@%s:objects", quoteName(pool), rev))
+	return l.listMeta(ctx, pool, rev, "objects")
+}
+
+// Vectors lists the data objects of pool@rev that the metadata says have a
+// vector (VNG) object.
+func (l *Lake) Vectors(ctx context.Context, pool, rev string) ([]ObjInfo, error) {
+	return l.listMeta(ctx, pool, rev, "vectors")
+}
+
+func VectorPath(pool, id ksuid.KSUID) string {
+	return fmt.Sprintf("%s/%s/data/%s.vng", RootURI.Path, pool, id)
+}
+
+// VectorStatus reads the vector object of a data object straight from storage
+// (VNG reader only; no lake code) and compares it with the data object's file:
+// "ok <n> values #<hash>", "differs-from-data-object (…)" or "ERR <class>".
+func VectorStatus(b Backing, pool, id ksuid.KSUID) (status string) {
+	defer func() {
+		if x := recover(); x != nil {
+			status = "ERR vng reader panics"
+		}
+	}()
+	raw, ok := b.Get(VectorPath(pool, id))
+	if !ok {
+		return "ERR vector file does not exist"
+	}
+	zctx := zed.NewContext()
+	zr, err := vngio.NewReader(zctx, bytes.NewReader(raw), demand.All())
+	if err != nil {
+		return "ERR vector file does not open: " + errWords(err)
+	}
+	var vecs []gen.Rec
+	for {
+		v, err := zr.Read()
+		if err != nil {
+			return "ERR vector file does not decode: " + errWords(err)
+		}
+		if v == nil {
+			break
+		}
+		vecs = append(vecs, gen.RecOf(*v))
+	}
+	vals, err := ReadObjectFile(zctx, b, pool, id)
+	if err != nil {
+		return "ERR data object unreadable"
+	}
+	rows := gen.RecsOf(vals)
+	if len(rows) != len(vecs) {
+		return fmt.Sprintf("differs-from-data-object (%d values, data object has %d)", len(vecs), len(rows))
+	}
+	h := fnv.New64a()
+	for i := range rows {
+		if rows[i].Type != vecs[i].Type || rows[i].Bytes != vecs[i].Bytes || rows[i].Null != vecs[i].Null {
+			return fmt.Sprintf("differs-from-data-object (value %d)", i)
+		}
+		fmt.Fprintf(h, "%s|%x|%v;", rows[i].Type, rows[i].Bytes, rows[i].Null)
+	}
+	return fmt.Sprintf("ok %d values #%016x", len(rows), h.Sum64())
+}
+
+// CheckVNG decodes a VNG object completely.
+func CheckVNG(raw []byte) (err error) {
+	defer func() {
+		if x := recover(); x != nil {
+			err = fmt.Errorf("vng reader panics: %v", x)
+		}
+	}()
+	zr, err := vngio.NewReader(zed.NewContext(), bytes.NewReader(raw), demand.All())
+	if err != nil {
+		return err
+	}
+	for {
+		v, err := zr.Read()
+		if v == nil || err != nil {
+			return err
+		}
+	}
+}
+
+func errWords(err error) string {
+	var sb strings.Builder
+	for _, r := range err.Error() {
+		if (r >= 'a' && r <= 'z') || (r >= 'A' && r <= 'Z') || r == ' ' {
+			sb.WriteRune(r)
+		}
+	}
+	out := strings.Join(strings.Fields(sb.String()), " ")
+	if len(out) > 60 {
+		out = out[:60]
+	}
+	return out
+}
+
+func (l *Lake) listMeta(ctx context.Context, pool, rev, meta string) ([]ObjInfo, error) {
+	vals, err := l.QueryVals(ctx, fmt.Sprintf("from %s@%s:%s", quoteName(pool), rev, meta))
 	if err != nil {
 		return nil, err
 	}
